@@ -1,6 +1,6 @@
 //! T5: inventory of potentially panicking operations in non-test library code.
-//! Every site becomes one constructor of `Generated.PanicSite`; the hand-written total function
-//! `justify : PanicSite → Justification` (lean/IsoMdl/Spec/PanicJustify.lean) then fails to compile
+//! Every site becomes one constructor of `Generated.PanicSite`; the hand-written table
+//! `table : List (String × Justification)` (lean/IsoMdl/Spec/PanicJustify.lean, keyed by `PanicSite.key`) then fails its totality theorem
 //! when a site appears (missing case) or disappears (unknown constructor).
 //! A site CLASS is keyed by (file, kind, SHAPE of the operand): the operand's tokens with every local name
 //! (variables, `self`) replaced by `_`, keeping paths, types, method and field names, macros and literals.
@@ -174,6 +174,10 @@ pub fn run(repo: &Path, out: &mut Out) {
     }
     lean.push_str("  deriving DecidableEq, Repr\n\n");
     lean.push_str(&descr);
+    let mut key = String::from("\n/-- the site's identity as text (the constructor name): what the hand-written justification table is keyed by -/\ndef PanicSite.key : PanicSite → String\n");
+    for n in &names { key.push_str(&format!("  | .{n} => {:?}\n", n)); }
+    lean.push_str(&key);
+    lean.push_str(&format!("\ndef PanicSite.all : List PanicSite := [{}]\n", names.iter().map(|n| format!(".{n}")).collect::<Vec<_>>().join(", ")));
     lean.push_str(&format!("\ndef PanicSite.count : Nat := {}\n\nend IsoMdl.Generated\n", names.len()));
     out.files.insert("PanicSites.lean".into(), lean);
 }
